@@ -1035,18 +1035,20 @@ impl RequestResponseProtocol {
     pub async fn run(mut self) {
         tracing::debug!(target: LOG_TARGET, "starting request-response event loop");
         #[cfg(litep2p_verif)]
-        crate::verif::note_config(
-            self.service.local_peer_id(),
-            "rr",
-            format!(
-                "{} to={} maxin={} cap={}/{}",
-                self.protocol,
-                self.timeout.as_millis(),
-                self.max_concurrent_inbound_requests.map(|n| n.to_string()).unwrap_or_else(|| "-".to_string()),
-                self.event_tx.max_capacity(),
-                self.command_rx.max_capacity(),
-            ),
-        );
+        if crate::verif::config_notes_enabled() {
+            crate::verif::note_config(
+                self.service.local_peer_id(),
+                "rr",
+                format!(
+                    "{} to={} maxin={} cap={}/{}",
+                    self.protocol,
+                    self.timeout.as_millis(),
+                    self.max_concurrent_inbound_requests.map(|n| n.to_string()).unwrap_or_else(|| "-".to_string()),
+                    self.event_tx.max_capacity(),
+                    self.command_rx.max_capacity(),
+                ),
+            );
+        }
 
         loop {
             #[cfg(litep2p_verif)]
